@@ -2,7 +2,7 @@
    and S (Spec/C17.v) on one text.  Definitions only.
    case   : the text (a string)
    answer : ( M S C )   M = (Ok ((isdir (line ...)) ...)) | (Err msg)
-                        S = (wf ((line isdir) ...))
+                        S = (wf ((line isdir) ...) wf_x)
                         C = (same ((isdir (line ...)) ...)): same = 1 iff the directive lines of the
                             Fortran path are those of c_file_source(directives_only=True) *)
 From Coq Require Import ZArith Bool Ascii String List.
@@ -37,7 +37,7 @@ Definition run_C17 (d : data) : data :=
   | DStr s =>
       let ls := split_lines [] (list_of_string s) in
       DList [ enc_nodes (parse_fortran ls);
-              DList [of_bool (wf ls); of_list (fun p => DList [of_nat (fst p); of_bool (snd p)]) (S_lines ls)];
+              DList [of_bool (wf ls); of_list (fun p => DList [of_nat (fst p); of_bool (snd p)]) (S_lines ls); of_bool (wf_x ls)];
               DList [enc_dirs (dirs_f ls); enc_dirs (dirs_c ls)] ]
   | _ => bad_case
   end.
